@@ -713,8 +713,10 @@ pub fn lalr_split_grammar(rng: &mut Rng, name: &str) -> Value {
         }
     }
     let mut rules: Vec<(String, Value)> = vec![("start".into(), if rng.chance(1, 2) { rep1(choice(alts)) } else { choice(alts) })];
+    let body_opt = rng.chance(1, 3);
     for j in 0..k {
-        rules.push((format!("n{j}"), if rng.chance(1, 3) { seq(vec![s("c"), opt(s("c"))]) } else { s("c") }));
+        // (same body for all k rules; two tokens, so that the rules stay non-terminals and `c`/`k` stay terminals)
+        rules.push((format!("n{j}"), if body_opt { seq(vec![s("c"), opt(s("k"))]) } else { seq(vec![s("c"), s("k")]) }));
     }
     grammar(name, rules, vec![pattern("\\s")], vec![], vec![])
 }
